@@ -119,4 +119,27 @@ def checkPSD (tau : Q) (A : Mat) : Bool :=
   | some d => d.all (· ≥ 0)
   | none => false
 
+/-- exact rank by fraction-free-less Gaussian elimination over ℚ (rows as lists) -/
+def rankRows : Nat → List (List Q) → Nat
+  | 0, _ => 0
+  | fuel+1, rows =>
+    match rows with
+    | [] => 0
+    | r0 :: _ =>
+      if r0.isEmpty then 0 else
+      -- find a row with non-zero first entry
+      match rows.find? (fun r => r.headD 0 != 0) with
+      | none => rankRows fuel (rows.map List.tail)
+      | some piv =>
+        let p := piv.headD 1
+        let rest := (rows.filter (fun r => r != piv || r.headD 0 == 0)).filter (fun r => !(r == piv))
+        let others := rows.eraseIdx ((rows.findIdx? (· == piv)).getD 0)
+        let _ := rest
+        let reduced := others.map fun r =>
+          let f := r.headD 0 / p
+          (List.zipWith (fun a b => a - f * b) r piv).tail
+        1 + rankRows fuel reduced
+
+def Mat.rank (A : Mat) : Nat := rankRows (A.c + 1) A.e
+
 end GstVerif.LinAlg
